@@ -132,3 +132,16 @@ package literal
 //@   ensures len(result.literals) < kept ==> result.partialCoverage
 //@   loop 1: invariant -1 <= rangeindex && rangeindex < rangelen && rangelen == len(re.Sub) && 0 < crossLimit && crossLimit <= 999999 && len(allLits) <= crossLimit && !overflowed && (allLits == nil || fresh(allLits))
 //@   loop 2: invariant 0 <= i && 0 < crossLimit && crossLimit <= 999999 && len(allLits) <= crossLimit && !overflowed && (allLits == nil || fresh(allLits)) && seq != nil
+
+// case folding: caseFolds(r) is the walk around r's simple-fold orbit (r, fold(r), fold(fold(r)), ... back to r):
+// every spelling regexp accepts for (?i)r is listed, in particular the non-ASCII members of the orbits of k and s
+//@ uninterpreted spec func sfold(r rune) rune
+//@ trusted func unicode.SimpleFold
+//@   ensures result == sfold(r)
+//@ func caseFolds
+//@   props C17
+//@   ensures len(result) >= 1 && result[0] == r && fresh(result)
+//@   ensures forall k :: 0 <= k && k + 1 < len(result) ==> result[k+1] == sfold(result[k])
+//@   ensures sfold(result[len(result)-1]) == r
+//@   loop 1: invariant len(result) >= 1 && result[0] == r && fresh(result) && allocated(result) && f == sfold(result[len(result)-1])
+//@   loop 1: invariant forall k :: 0 <= k && k + 1 < len(result) ==> result[k+1] == sfold(result[k])
